@@ -108,7 +108,9 @@ class FakeSnowflakeCursor:
 
         describe = f"DESCRIBE {command}"
         self.execute(describe, *args, **kwargs)
-        return describe_as_result_metadata(self.fetchall())
+        rows = self.fetchall()
+        # describe_as_result_metadata expects tuples, but a DictCursor returns dicts
+        return describe_as_result_metadata([tuple(r.values()) if isinstance(r, dict) else r for r in rows])
 
     @property
     def description(self) -> list[ResultMetadata]:
